@@ -306,6 +306,28 @@ def r5(run, ctx):
     want_plain = "to_str(data['data'])"
     want_pref = ("(%s + to_str(data['data']).rstrip('\\n')).replace('\\n', '\\n' + %s) + '\\n'"
                  % (pname, pname))
+    # text the file's encoding rejects must still be written (replaced), not lost: the
+    # fallback handler has to catch the encoding error of the first write
+    ENC_OK = {'*', 'Exception', 'BaseException', 'UnicodeError', 'UnicodeEncodeError', 'ValueError'}
+    for t in ast.walk(wf.node):
+        if isinstance(t, ast.Try) and any(
+                isinstance(c, ast.Call) and astq.call_last(c) == 'write'
+                for st in t.body for c in ast.walk(st)):
+            caught = set()
+            for h in t.handlers:
+                caught |= {'*'} if h.type is None else {
+                    (dotted(x) or '').split('.')[-1] for x in
+                    (h.type.elts if isinstance(h.type, ast.Tuple) else [h.type])}
+            rewrites = [h for h in t.handlers if any(
+                isinstance(c, ast.Call) and astq.call_last(c) == 'write' for st in h.body
+                for c in ast.walk(st))]
+            if rewrites:
+                run.check('R5', bool(caught & ENC_OK), 'the replace-and-retry fallback catches the '
+                          'encoding error of the first write', wf, t.handlers[0],
+                          'the fallback only catches %s: a chunk the file encoding rejects raises '
+                          'UnicodeEncodeError past it, after the rollover decision was already '
+                          'taken - the chunk is lost and the retained data has a hole'
+                          % sorted(caught), construct='fallback misses UnicodeEncodeError')
     seen = set()
     if run.need('R5', first_w, 'write of the record text', wf):
         for n, c in first_w:
